@@ -317,6 +317,8 @@ def q_model_spec(rnd, kinds_filter=None, min_layers=2, max_layers=5):
       if t == "QConv2D_mask":
         k = kw["kernel_size"][0]
         kw["mask"] = [[1 if (i + j) % 2 == 0 else 0 for j in range(k)] for i in range(k)]
+        if kw["filters"] % 2 == 0:     # a weighting mask (entries other than 0 / 1) multiplies the kernel just the same
+          kw["mask"] = [[0.5 if (i + j) % 2 == 0 else (-1.0 if i > j else 0.25) for j in range(k)] for i in range(k)]
       add("QConv2D", "qconv", kw)
     elif t == "QConv1D":
       add(t, "qconv1d", {"filters": rnd.randint(1, 3), "kernel_size": rnd.randint(1, 2), "padding": rnd.choice(["same", "causal"]),
